@@ -49,6 +49,7 @@ type Contract struct {
 	LoopDec    map[int]*Clause
 	LoopMods   map[int][]string
 	Modifies   []string
+	RangeOver  map[int]*Clause // loop ordinal -> required `for range <name>` form
 	CallAsserts map[string][]*Clause // callee -> assertions checked just before each call of it
 	ModAt      map[string][]string // component spelling -> address expressions (only these objects change)
 	HasMods    bool
@@ -154,7 +155,7 @@ func (g *Gen) loadContractFile(path string) error {
 		word, rest := splitWord(body)
 		switch word {
 		case "func":
-			cur = &Contract{Pkg: pkg, Func: rest, LoopInv: map[int][]*Clause{}, LoopDec: map[int]*Clause{}, LoopMods: map[int][]string{}, Absorbs: map[string]string{}, Unordered: map[string]string{}, CallAsserts: map[string][]*Clause{}, SafetyAt: map[string][]string{}, ModAt: map[string][]string{}, File: path, Line: ln}
+			cur = &Contract{Pkg: pkg, Func: rest, LoopInv: map[int][]*Clause{}, LoopDec: map[int]*Clause{}, LoopMods: map[int][]string{}, Absorbs: map[string]string{}, Unordered: map[string]string{}, RangeOver: map[int]*Clause{}, CallAsserts: map[string][]*Clause{}, SafetyAt: map[string][]string{}, ModAt: map[string][]string{}, File: path, Line: ln}
 			key := pkg + "." + rest
 			if _, dup := g.contracts[key]; dup {
 				return fmt.Errorf("%s:%d: duplicate contract for %s", path, ln, key)
@@ -220,6 +221,13 @@ func (g *Gen) loadContractFile(path string) error {
 				}
 				cur.LoopDec[k] = cl
 				lastClause = cl
+			case "ascending-range":
+				cl, err := parseClause("range", rest3, path, ln)
+				if err != nil {
+					return err
+				}
+				cl.Loop = k
+				cur.RangeOver[k] = cl
 			case "modifies":
 				cur.LoopMods[k] = append(cur.LoopMods[k], strings.Fields(rest3)...)
 			default:
